@@ -45,14 +45,15 @@ type elNode struct {
 }
 
 type elWorker struct {
-	cfg   Eligibility
-	p     *env.Provider
-	tab   Table
-	root  *elNode
-	stats *engine.Stats
-	cons  []elCons
-	keyA  env.ConsKey
-	keyB  env.ConsKey
+	cfg    Eligibility
+	p      *env.Provider
+	tab    Table
+	root   *elNode
+	stats  *engine.Stats
+	rootVs []V
+	cons   []elCons
+	keyA   env.ConsKey
+	keyB   env.ConsKey
 }
 
 func consAddrs(p *env.Provider, idx ...int) []string {
@@ -158,7 +159,8 @@ func (c Eligibility) NewWorker(stats *engine.Stats) (engine.Worker, error) {
 	}
 	w.root = &elNode{S: st}
 	n, vs := w.block(w.root)
-	if n == nil || len(vs) > 0 {
+	w.rootVs = vs
+	if n == nil {
 		return nil, fmt.Errorf("prefix block failed: %v", vs)
 	}
 	w.root = n.(*elNode)
@@ -166,6 +168,7 @@ func (c Eligibility) NewWorker(stats *engine.Stats) (engine.Worker, error) {
 	return w, nil
 }
 
+func (w *elWorker) RootViolations() []V            { return w.rootVs }
 func (w *elWorker) Root() engine.Node              { return w.root }
 func (w *elWorker) Enabled(n engine.Node) []string { return w.tab.Names() }
 func (w *elWorker) Hash(n engine.Node) [32]byte {
@@ -252,6 +255,22 @@ func (w *elWorker) build() {
 	}, nil)
 	w.tx("assign(v1,c0,kA)", func(*elNode) sdk.Msg { return env.MsgAssignKey(p.Vals[1], "0", w.keyA) }, nil)
 	w.tx("assign(v1,c0,kB)", func(*elNode) sdk.Msg { return env.MsgAssignKey(p.Vals[1], "0", w.keyB) }, nil)
+	w.tx("update(c0,clear lists)", func(x *elNode) sdk.Msg {
+		ps, err := p.K.GetConsumerPowerShapingParameters(x.S.Ctx, "0")
+		if err != nil || len(ps.Denylist)+len(ps.Allowlist) == 0 {
+			return nil
+		}
+		ps.Denylist, ps.Allowlist = nil, nil
+		return &providertypes.MsgUpdateConsumer{Owner: p.Users[0].Addr.String(), ConsumerId: "0", PowerShapingParameters: &ps}
+	}, nil)
+	w.tx("update(c0,allow v0)", func(x *elNode) sdk.Msg {
+		ps, err := p.K.GetConsumerPowerShapingParameters(x.S.Ctx, "0")
+		if err != nil || len(ps.Allowlist) > 0 {
+			return nil
+		}
+		ps.Allowlist = consAddrs(p, 0)
+		return &providertypes.MsgUpdateConsumer{Owner: p.Users[0].Addr.String(), ConsumerId: "0", PowerShapingParameters: &ps}
+	}, nil)
 	w.tx("update(c0,deny v2)", func(x *elNode) sdk.Msg {
 		ps, err := p.K.GetConsumerPowerShapingParameters(x.S.Ctx, "0")
 		if err != nil || len(ps.Denylist) > 0 && ps.Denylist[len(ps.Denylist)-1] == p.Vals[2].ConsAddr().String() {
